@@ -13,6 +13,7 @@ from pest.grammar.expressions.choice import ChoiceCase
 from pest.grammar.expressions.choice import ChoiceLiteral
 from pest.grammar.expressions.choice import ChoiceRange
 from pest.grammar.expressions.choice import OptimizedChoice
+from pest.grammar.expressions.choice import is_order_independent
 from pest.grammar.rules.unicode import UnicodePropertyRule
 
 if TYPE_CHECKING:
@@ -27,7 +28,12 @@ def squash_choice(expr: Expression, _rules: Mapping[str, Rule]) -> Expression:
         return expr
 
     exprs = expr.expressions
-    return squash(exprs, OptimizedChoice()) or expr
+    new_expr = squash(exprs, OptimizedChoice())
+
+    # pest's choice is ordered; the regex groups alternatives by kind.
+    if new_expr and is_order_independent(new_expr.choices):
+        return new_expr
+    return expr
 
 
 def squash(
